@@ -10,11 +10,14 @@ replaced in the harness process only — no source file is touched):
                   `notify_tag_updates`, `write_process_image`; and *inside* the sub-calls where a tick spends its
                   time: before the hardware read (`hwl.read_batch`), before every UOD command exec function
                   (`UodCommand.execute`, in the executing loop of the command manager) and before the hardware write
-                  (`hwl.write_batch`)
+                  (`hwl.write_batch`); and inside `PInterpreter.tick` after every sub-tick of the main generator and of each
+                  interrupt generator (`interp.subtick`, generator granularity)
   request thread  at the entry of each entry point, at the lock acquire (if the entry point takes the lock) and before
                   its sub-calls `_validate_control_command`, `CommandManager.schedule`, `MethodManager.merge_method`,
                   `MethodManager.set_method`, `MethodManager.parse_inject_code`, `PInterpreter.inject_node`,
-                  `CommandManager.cancel_instruction`, `CommandManager.force_instruction`
+                  `CommandManager.cancel_instruction`, `CommandManager.force_instruction`, and the sub-steps of a merge:
+                  `MethodManager._create_interpreter_merge_state`, `_create_interpreter_from_state`,
+                  `Engine.on_interpreter_reset`
 
 `engine._lock` (a `threading.Lock`) is replaced by a `CoopLock` with the same `with` protocol that tells the
 scheduler when a thread has to wait for it, so a thread blocked on the lock is simply not schedulable.  Exactly one
@@ -178,6 +181,15 @@ def install() -> None:
     _wrap(Engine, "read_process_image", "read_process_image", "T")
     _wrap(Tracking, "tick", "tracking.tick", "T")
     _wrap(PInterpreter, "tick", "interpreter.tick", "T")
+    # generator granularity inside the interpreter tick: a yield point after every sub-tick
+    orig_subticks = PInterpreter.tick_iterate_subticks
+
+    def subticks(self, *a, **k):
+        for item in orig_subticks(self, *a, **k):
+            _yp("interp.subtick", "T")
+            yield item
+    subticks.__wrapped__ = orig_subticks  # type: ignore[attr-defined]
+    PInterpreter.tick_iterate_subticks = subticks  # type: ignore[method-assign]
     _wrap(Engine, "update_calculated_tags", "update_calculated_tags", "T")
     _wrap(CommandManager, "tick", "command_manager.tick", "T")
     _wrap(Engine, "notify_tag_updates", "notify_tag_updates", "T")
@@ -194,13 +206,17 @@ def install() -> None:
     _wrap(MethodManager, "set_method", "mm.set_method", "R")
     _wrap(MethodManager, "parse_inject_code", "parse_inject_code", "R")
     _wrap(PInterpreter, "inject_node", "inject_node", "R")
+    _wrap(MethodManager, "_create_interpreter_merge_state", "merge.state", "R")
+    _wrap(MethodManager, "_create_interpreter_from_state", "merge.from_state", "R")
+    _wrap(Engine, "on_interpreter_reset", "interpreter_reset", "R")
     _wrap(CommandManager, "cancel_instruction", "cm.cancel_instruction", "R")
     _wrap(CommandManager, "force_instruction", "cm.force_instruction", "R")
     _installed = True
 
 
 def instrument_engine(engine, coop: Coop) -> None:
-    """Per-engine part: the scheduler-aware lock and the hardware tick."""
+    """Per-engine part: the scheduler-aware lock, the hardware tick and the hardware batch calls.  Setting
+    `engine.uod.hwl._verif_fail_reads = n` makes the next n `read_batch` calls raise HardwareLayerException."""
     engine._lock = CoopLock(coop)
     hwl = engine.uod.hwl
     if not hasattr(hwl, "_verif_tick"):
@@ -215,6 +231,10 @@ def instrument_engine(engine, coop: Coop) -> None:
 
             def batch(*a, _orig=orig, _name=name, **k):
                 _yp("hwl." + _name, "T")
+                if _name == "read_batch" and getattr(hwl, "_verif_fail_reads", 0) > 0:
+                    from openpectus.engine.hardware import HardwareLayerException
+                    hwl._verif_fail_reads -= 1
+                    raise HardwareLayerException("verif: read failed")
                 return _orig(*a, **k)
             setattr(hwl, name, batch)
 
